@@ -77,12 +77,17 @@ class IfWriteHandler(AbstractWriteHandler):
                 v_after_if_branch = if_branch_handler.write_content()
             else_ends_on_common_vtx = True
             v_after_else_branch = None
+            # The end of this if, when the last else leads straight to it (nothing is written for that else)
+            self._end_vertex_after_last_else = else_edge.target_vertex
+            # The end of this if, when an elseif-branch reached it
+            self._end_vertex_after_elseif_branch = None
             if not (
                 isinstance(else_edge.target_vertex["op"], SsbLabel)
                 and any(isinstance(mx, IfEnd) and m.if_id == mx.if_id for mx in else_edge.target_vertex["op"].markers)
             ):
                 # Handle all else-ifs that might be in between
                 # TODO: does this actually work correctly for the common-end detection...? It think this works?
+                self._end_vertex_after_last_else = None
                 else_edge = self._build_else_if_chain(else_edge)
                 if else_edge is not None:
                     logger.debug("<%d> Handling else-block...", id(self.start_vertex))
@@ -110,6 +115,13 @@ class IfWriteHandler(AbstractWriteHandler):
             ), f"Invalid if-structure for if {m.if_id}"
 
             if v_after_if_branch is None:
+                if v_after_else_branch is None:
+                    # The if-branch left (it ended on a jump), but an elseif-branch or the last else still
+                    # continue after the if.
+                    if self._end_vertex_after_elseif_branch is not None:
+                        return self._end_vertex_after_elseif_branch
+                    if else_ends_on_common_vtx:
+                        return self._end_vertex_after_last_else
                 return v_after_else_branch
             return v_after_if_branch
 
@@ -189,6 +201,7 @@ class IfWriteHandler(AbstractWriteHandler):
                 logger.debug("<%d> Empty else-if-block (%s).", id(self.start_vertex), op)
                 with Blk(self.decompiler):
                     pass
+                self._end_vertex_after_last_else = else_edge.target_vertex
                 return None
             else:
                 # If they are the same, we also need to print the else with a jump to it, so we need to make sure,
@@ -199,13 +212,15 @@ class IfWriteHandler(AbstractWriteHandler):
 
                 with Blk(self.decompiler):
                     # Handle elseif-branch
-                    BlockWriteHandler(
+                    v_after_elseif_branch = BlockWriteHandler(
                         if_edge.target_vertex,
                         self.decompiler,
                         self,
                         self.start_vertex,
                         check_end_block=self.check_end_block,
                     ).write_content()
+                    if self._end_vertex_after_elseif_branch is None:
+                        self._end_vertex_after_elseif_branch = v_after_elseif_branch
                 next_vertex_ends = isinstance(else_edge.target_vertex["op"], SsbLabel) and any(
                     isinstance(mx, IfEnd) and m.if_id == mx.if_id for mx in else_edge.target_vertex["op"].markers
                 )
@@ -221,6 +236,7 @@ class IfWriteHandler(AbstractWriteHandler):
                     if isinstance(eop, SsbLabel) and eop.id in self.decompiler.labels_already_printed:
                         return else_edge
                     else:
+                        self._end_vertex_after_last_else = else_edge.target_vertex
                         return None
                 else:
                     return None
